@@ -83,6 +83,8 @@ func checkGuards(c *Ctx, rule string, guards []guardSpec) {
 }
 
 func runC10(c *Ctx) {
+	c.Rule("R11", "the FSM's applied-state record (RaftNode.state) is touched only on raft's FSM goroutine or before raft starts", 3)
+	fsmStateConfined(c, "R11")
 	c.Rule("R10", "memory of an object recycled through a sync.Pool never leaves its Get/Put window (returned, stored outside the function, sent)", 1)
 	poolEscapes(c, "R10", []string{"api/apihttp", "balloon", "balloon/history", "balloon/hyper", "balloon/cache", "consensus", "protocol"})
 	c.Rule("R1", "guarded-by table: every access under the owning mutex on every call path", 12)
